@@ -287,9 +287,12 @@ fn run_ctor(c: &CtorCase) -> Outcome {
             (Ctor::FromDataWithStrides, Store::CowOwned, false) => match CowTensor::<u8>::from_data_with_strides(&shape, CowData::Owned(backing), &strides) {
                 Ok(t) => {
                     let mut m = made(&t);
-                    let mut owned = t.into_owned();
-                    m.storage_mutable = true;
-                    probe_mut(&mut owned, &mut m);
+                    // into_owned may have to copy: only for tensors with few elements
+                    if exact::elem_count(&m.shape) <= 4096 {
+                        let mut owned = t.into_owned();
+                        m.storage_mutable = true;
+                        probe_mut(&mut owned, &mut m);
+                    }
                     Outcome::Accepted(m)
                 }
                 Err(_) => Outcome::Rejected,
@@ -335,16 +338,15 @@ fn run_ctor(c: &CtorCase) -> Outcome {
                     (Store::CowOwned, false) => {
                         let t = CowTensor::<u8>::from_storage_and_layout(CowData::Owned(backing), dynl);
                         let mut m = made(&t);
-                        // into_owned hands the Vec over: the result is a mutable tensor
-                        let mut owned = t.into_owned();
-                        let mut m2 = made(&owned);
-                        m2.storage_mutable = true;
-                        if m2.shape == m.shape && m2.strides == m.strides {
+                        // into_owned hands the Vec over (or copies): the result is a mutable
+                        // tensor. Only for tensors with few elements (a copy allocates them all).
+                        if exact::elem_count(&m.shape) <= 4096 {
+                            let mut owned = t.into_owned();
+                            let mut m2 = made(&owned);
+                            m2.storage_mutable = true;
                             probe_mut(&mut owned, &mut m2);
-                        } else {
-                            probe_mut(&mut owned, &mut m2);
+                            m = m2;
                         }
-                        m = m2;
                         Outcome::Accepted(m)
                     }
                     (Store::SliceMut, true) => with_rank!(rank, N, {
